@@ -64,7 +64,11 @@ const (
 	NoFault = iota
 	FailAlways
 	FailOnce
+	FailPanic // the callback panics half way (an index out of range, a nil map...)
 )
+
+// InjectedPanic is what a FailPanic callback panics with.
+type InjectedPanic struct{ Where string }
 
 var ErrInjected = errors.New("injected fault")
 
@@ -103,6 +107,8 @@ func (b *Beh) fault(mode int, calls int) error {
 		if calls == 1 {
 			return ErrInjected
 		}
+	case FailPanic:
+		panic(InjectedPanic{fmt.Sprintf("callback of component %d", b.ID)})
 	}
 	return nil
 }
